@@ -1623,8 +1623,47 @@ func checkC13(w *World, r *Report) {
 			return o.Rule == "C01.R2" && (strings.HasSuffix(o.Key, "|Context.Message") || strings.HasSuffix(o.Key, "|Context.Sender"))
 		})
 		importRules(w, r, checkC02, "C02", "C13.R5", func(o *Obligation) bool {
-			return o.Rule == "C02.R1" || o.Rule == "C02.R2" || o.Rule == "C02.R3" || o.Rule == "C02.R4" || o.Rule == "C02.R6"
+			return o.Rule == "C02.R1" || o.Rule == "C02.R2" || o.Rule == "C02.R3" || o.Rule == "C02.R4" || o.Rule == "C02.R6" || o.Rule == "C02.R7"
 		})
+		// what the Context shows is written by the process machine alone (the delivery function and the lifecycle deliveries
+		// of actor.process): an API method that clears or rewrites sender/message changes what the rest of the chain sees
+		{
+			var strangers []string
+			for _, fn := range w.Funcs {
+				if !w.isLib(fn) {
+					continue
+				}
+				for _, in := range w.insOf(fn) {
+					st, ok := in.(*ssa.Store)
+					if !ok {
+						continue
+					}
+					fa, ok := st.Addr.(*ssa.FieldAddr)
+					if !ok || !(isFieldOf(fa, pr.ctxT, "message") || isFieldOf(fa, pr.ctxT, "sender")) {
+						continue
+					}
+					if _, fresh := fa.X.(*ssa.Alloc); fresh {
+						continue
+					}
+					okW := false
+					for _, rt := range w.inlineRoots(fn) {
+						top := rt
+						for top.Parent() != nil {
+							top = top.Parent()
+						}
+						if isProcessMethod(w, top) {
+							okW = true
+						}
+					}
+					if !okW {
+						nm, _ := fieldName(fa)
+						strangers = append(strangers, fname(fn)+" writes Context."+nm+" at "+w.pos(st.Pos()))
+					}
+				}
+			}
+			r.Check(len(strangers) == 0, "C13.R5", "Context.message/sender:writers", "only the process machine writes the message and sender a Context shows", w.fnPos(pr.deliverFn),
+				strings.Join(strangers, "; ")+": inside the chain (a middleware after next(c), the receiver after the call) the Context no longer shows the sender/message of the delivery")
+		}
 	}
 }
 
